@@ -310,7 +310,10 @@ pub fn run_c05(p: &Params) -> Option<Finding> {
     let notes_before = sim.notes.len();
     sim.partition = None;
     let pad = cfg.pad.map(|x| x.0).unwrap_or(4000);
-    let bound = pu(p, "bound", 8) * pad + 4 * cfg.probe_period;
+    // "a bounded number of announce-to-down periods": the renewed identities spread by gossip with fan-out
+    // `num_indirect_probes`, so the number of periods grows with the cluster (fan-out 1, eleven members: about a
+    // dozen); a fixed 8 was this check's invention, not the property's
+    let bound = pu(p, "bound", 8.max(2 * n as u64)) * pad + 4 * cfg.probe_period;
     sim.run_until(t0 + dur + bound);
     let after = &sim.notes[notes_before..];
     if std::env::var("VERIF_DEBUG").is_ok() {
